@@ -17,6 +17,7 @@ import (
 
 // Ctx is what a rule gets.
 type Ctx struct {
+	palFlags *paletteFlagModel
 	P      *load.Program
 	R      *report.Run
 	Tier   string
